@@ -8,6 +8,7 @@ import (
 	"sort"
 	"strconv"
 	"strings"
+	"sync"
 	"time"
 
 	"github.com/quickfixgo/quickfix"
@@ -675,6 +676,42 @@ func (w *World) StartLoop(l *LoopCtl) {
 	l.started = true
 }
 
+// Write failures are injected through the file store's process-global hook; worlds run in parallel, so the hook
+// looks the world up by the directory of the file being written.
+var (
+	failMu   sync.Mutex
+	failDirs = map[string]*int{} // world directory -> writes left before the failing one
+	failOnce sync.Once
+)
+
+func armWriteFailure(dir string, k int) {
+	failOnce.Do(func() {
+		filestore.VerifFailHook = func(label string) error {
+			failMu.Lock()
+			defer failMu.Unlock()
+			for d, left := range failDirs {
+				if strings.Contains(label, d+string(os.PathSeparator)) {
+					*left--
+					if *left == 0 {
+						return fmt.Errorf("injected write failure (%s)", label[:strings.LastIndex(label, ":")])
+					}
+				}
+			}
+			return nil
+		}
+	})
+	failMu.Lock()
+	n := k
+	failDirs[dir] = &n
+	failMu.Unlock()
+}
+
+func disarmWriteFailure(dir string) {
+	failMu.Lock()
+	delete(failDirs, dir)
+	failMu.Unlock()
+}
+
 // Event is one run-loop iteration's trigger.
 type Event struct {
 	K    string // connect disconnect in to send flush stop
@@ -690,6 +727,8 @@ type Event struct {
 	// the LinesOfText group count (33)
 	SendType string
 	SendNews bool
+	// FailWrite: during this send the k-th write of the session's file store fails (file-store worlds only)
+	FailWrite int
 	// Behind: a second inbound message already buffered in the inbound channel while In is handled (pipelined by
 	// the peer); its number is relative to T at the time In arrives
 	Behind *In
@@ -875,7 +914,14 @@ func (w *World) applySync(e *Event) {
 			g.Add().SetString(448, "P2").SetString(447, "D").SetString(452, "2")
 			m.Body.SetGroup(g)
 		}
-		if err := w.VS.QueueForSend(m); err != nil {
+		if e.FailWrite > 0 && w.dir != "" {
+			armWriteFailure(w.dir, e.FailWrite)
+		}
+		err := w.VS.QueueForSend(m)
+		if e.FailWrite > 0 && w.dir != "" {
+			disarmWriteFailure(w.dir)
+		}
+		if err != nil {
 			w.log = append(w.log, Obs{K: "senderr", Txt: err.Error()})
 		}
 	case "flush":
